@@ -564,6 +564,27 @@ func isByteElem(t types.Type) bool {
 // havocTarget: a `modifies` entry is a table name, a component name, `bank`, or `*param`.
 func (x *Exec) havocTarget(st *State, env *Env, m string) {
 	s := x.s
+	if strings.HasPrefix(m, "elems:") {
+		// the content of the backing array of the slice at the path may be overwritten in place
+		v := env.pathVal(m[6:])
+		sl, ok := v.(Slice)
+		if !ok {
+			panic(fmt.Errorf("%s: modifies %s: not a slice", env.where, m))
+		}
+		if sl.Arr == nil {
+			return
+		}
+		c := s.arrContent(st, sl.Arr)
+		nc := &ArrContent{Cells: map[string]Val{}, Sym: true}
+		if c.Leaves != nil {
+			sorts, _ := s.leafSorts(sl.Arr.Elem)
+			for i, so := range sorts {
+				nc.Leaves = append(nc.Leaves, s.declare(s.fresh(fmt.Sprintf("inplace:%s#%d", sl.Arr.Name, i)), "(Array Int "+so+")"))
+			}
+		}
+		st.arrs[sl.Arr] = nc
+		return
+	}
 	if strings.HasPrefix(m, "*") {
 		v, ok := env.vars[m[1:]]
 		if !ok {
@@ -607,7 +628,7 @@ func (x *Exec) havocTarget(st *State, env *Env, m string) {
 func (sp *Spec) expandModifies(ms []string) map[string]bool {
 	out := map[string]bool{}
 	for _, m := range ms {
-		if strings.HasPrefix(m, "*") {
+		if strings.HasPrefix(m, "*") || strings.HasPrefix(m, "elems:") {
 			continue
 		}
 		if _, ok := sp.Tables[m]; ok {
